@@ -46,8 +46,9 @@ def replay_file(prop, path, quiet=False) -> int:
     with open(path) as f:
         record = json.load(f)
     nt = import_nutree()
-    if record.get("engine") in ("fs", "prng"):
-        mod = __import__({"fs": "simkit.fsim", "prng": "simkit.prng"}[record["engine"]],
+    if record.get("engine") in ("fs", "prng", "deep"):
+        mod = __import__({"fs": "simkit.fsim", "prng": "simkit.prng",
+                          "deep": "simkit.deep"}[record["engine"]],
                          fromlist=["replay_record"])
         hits = [h for h in mod.replay_record(record, prop, nt) if h[0] == prop]
         want = tuple(record["signature"]) if record.get("signature") else None
@@ -178,7 +179,7 @@ def run(prop: str, spec: dict, argv) -> int:
                             engine=spec.get("engine", "history"),
                             cfg_overrides=spec.get("cfg_overrides"))
             record = r.record
-        no_min = args.no_minimise or record.get("engine") in ("peer", "fs", "prng")
+        no_min = args.no_minimise or record.get("engine") in ("peer", "fs", "prng", "deep")
         rec_min = record if no_min else minimise(record, sig, nt=nt)
         replay_path = CM.write_replay(prop, rec_min, sig, detail)
         ok, out = CM.replay_in_fresh_interpreter(prop, replay_path)
